@@ -1,23 +1,25 @@
 \* template used by harness/drivers/c17 (the driver substitutes the @@..@@ fields):
-\*   mc:fixed   Kinds = all, FixedKinds = {conncap, maplimit, maplive, codequota, mapquota}, NodeCounts = {1}
-\*              INVARIANTS NoOvershoot NoDeviation RefusedNoEffect CounterExact        (repaired design: strict)
-\*   mc:asis    FixedKinds = {}: INVARIANTS Safe RefusedNoEffect CounterExact           (every overshoot is a named deviation)
-\*   mc:open    quota kinds, NodeCounts = {1,2}, LockKeys = {owner, issuer}, repaired: INVARIANTS Safe ...
-\*              (what the per-instance mutex leaves open; what a mutex keyed on the wrong client leaves open)
-\*   gen / legacy: Emit = TRUE (one behaviour per transition; VIEW hides hist); all: EmitAll = TRUE, no VIEW
-\* bounds: NS = {2,3,4}, Lims = {0,1,2}, occupancy limit-1 at the start, each request admitted at most once
+\*   legacy+gen+mc   one run: Variants = all, INVARIANTS Strict Safe RefusedNoEffect CounterExact - the code as it is on
+\*           one instance is strict (NoOvershoot, no deviation); the code before the repairs, several instances and every
+\*           faulty variant: each overshoot goes through a named deviation - and Emit: one behaviour per transition
+\*           (VIEW hides hist) for n <= EmitMaxN; var = none: "gen", the others: "legacy" = schedules that must be
+\*           unrealisable on the right tree
+\*   legacy-all+all  EmitAll, no VIEW, Shape = pairs: every maximal behaviour of 2 requests at limit-1, 3 at limit-2
+\* bounds: NS = {2,3,4}, Lims = {0,1,2}, occupancy limit-slack at the start, each request admitted at most once
 CONSTANTS
   Kinds = @@KINDS@@
   NS = @@NS@@
   Lims = @@LIMS@@
   NodeCounts = @@NODES@@
-  LockKeys = @@KEYS@@
   Variants = @@VARIANTS@@
+  Shape = "@@SHAPE@@"
   MaxReRel = @@RR@@
   Slacks = @@SLACKS@@
-  FixedKinds = @@FIXED@@
+  Listers = @@LISTERS@@
+  FixedKinds = {"conncap", "maplimit", "maplive", "codequota", "mapquota"}
   WithRelease = @@REL@@
   Emit = @@EMIT@@
+  EmitMaxN = @@EMITMAXN@@
   EmitAll = @@EMITALL@@
 INIT Init
 NEXT Next
